@@ -104,7 +104,7 @@ func runCryption(c *kit.Case, t tally, s crySpec) {
 			return
 		}
 		if !ran {
-			viol(c, "C18/cryption/valid-body-rejected/"+cls, fmt.Sprintf("a correctly encrypted body of %d plaintext bytes was refused with status %d; the handler was not called",
+			viol(c, "C18/cryption/valid-body-rejected/"+sizeClass(len(s.Payload)), fmt.Sprintf("a correctly encrypted body of %d plaintext bytes was refused with status %d; the handler was not called",
 				len(s.Payload), rec.Code), wit(""))
 			return
 		}
@@ -155,7 +155,7 @@ func runCryption(c *kit.Case, t tally, s crySpec) {
 		switch {
 		case pan != "":
 			t["cryption_obs_panic_on_"+s.Kind]++
-			c.Sample("cryption-panic-on-invalid-input", 1, map[string]any{"kind": s.Kind, "wire": clip(fmt.Sprintf("%q", s.Wire), 80), "panic": clip(pan, 300)})
+			c.Sample("cryption-panic-on-invalid-input", 1, map[string]any{"kind": s.Kind, "wire": clip(fmt.Sprintf("%q", s.Wire), 80), "panic": clip(pan, 60)})
 		case ran:
 			t["cryption_obs_handler_ran_on_"+s.Kind]++
 			// if the reference CAN decrypt it, the handler must have seen exactly that
@@ -196,6 +196,13 @@ func cryptionMiscCase(c *kit.Case) {
 	for i := 0; i < 40; i++ {
 		n := kit.Choose(r, []int{0, 1, 15, 16, 17, 32, 48, 100, 1024, 4096, r.Range(0, 4096)})
 		s := newCrySpec(r, n)
+		if i == 0 && c.Index%3 == 0 {
+			// a large payload now and then (still below the default 1 MiB limit on the wire)
+			s = newCrySpec(r, kit.Choose(r, []int{4097, 8191, 8192, 65536, 100000, 262144, 700000}))
+			s.Limit = kit.Choose(r, []int64{-1, 0, 1 << 20})
+			runCryption(c, t, s)
+			continue
+		}
 		switch r.Pick(3, 2, 2, 8) {
 		case 0: // valid, but sent without a Content-Length
 			s.UnknownLength = true
